@@ -33,6 +33,7 @@ fn run(shard: &Shard, rep: &mut Report) {
         script_strategy(true, t.pick(30, 50)),
         |s| check_script(s, true),
     );
+    crate::prop_c07_patch::run(shard, rep);
 }
 
 fn replay(_shard: &Shard, sub: &str, case: &Value) -> CheckResult {
@@ -41,6 +42,7 @@ fn replay(_shard: &Shard, sub: &str, case: &Value) -> CheckResult {
             let s: Script = from_case(case).map_err(|e| Failure::new("harness", e))?;
             check_script(&s, true).1
         }
+        "server-patch" => crate::prop_c07_patch::replay(case),
         _ => Err(Failure::new("harness", format!("unknown sub-check {sub}"))),
     }
 }
